@@ -266,9 +266,26 @@ def main():
     cases = []
     if replay:
         rp = json.load(open(replay))
-        for l in rp.get('lines', []):
-            cases.append(Case(l['line'], tuple(l.get('builds', ('ark', 'min'))), cls='replay', spec=l.get('spec')))
-        # re-attach oracles by regenerating nothing: the replay re-runs correspondence and the recorded expectation
+        wanted = {l['line']: l for l in rp.get('lines', [])}
+        # regenerate the run the replay came from (same seed, same tier) and pick the recorded lines out of it, so that
+        # each keeps its oracle, specification line and canonicalisation; lines no longer generated are re-run bare
+        regen = []
+        if P.get('gen') and wanted:
+            try:
+                regen = [c for c in P['gen'](random.Random(rp.get('seed', seed)), rp.get('tier', tier)) if c.line in wanted]
+            except Exception:
+                regen = []
+        seen_lines = set()
+        for c in regen:
+            want_b = tuple(b for b in c.builds if b in tuple(wanted[c.line].get('builds', c.builds)))
+            if want_b and (c.line, want_b) not in seen_lines:
+                seen_lines.add((c.line, want_b))
+                seen_lines.add(c.line)
+                c.builds = want_b
+                cases.append(c)
+        for line, l in wanted.items():
+            if line not in seen_lines:
+                cases.append(Case(l['line'], tuple(l.get('builds', ('ark', 'min'))), cls='replay', spec=l.get('spec')))
     else:
         cases = P['gen'](rng, tier) if P.get('gen') else []
     builds_needed = sorted({b for c in cases for b in c.builds})
@@ -453,7 +470,8 @@ def main():
         for k in ('obligations', 'discharged', 'theorems', 'axioms_used', 'leanchecker'):
             ev['coverage'].pop(k, None)
     ev['coverage'] = {k: v for k, v in ev['coverage'].items() if v is not None}
-    with open(os.path.join(VERIF, 'evidence', pid + '.json'), 'w') as f:
+    # a replay re-runs one recorded case: it must not replace the evidence of the last full run
+    with open(os.path.join(VERIF, 'evidence', pid + ('.replay.json' if replay else '.json')), 'w') as f:
         json.dump(ev, f, indent=1)
     print('%s: tier=%s obligations=%d discharged=%d evaluations=%d distinct=%d violations=%d wall=%.0fs'
           % (pid, tier, obligations, discharged, stats['evaluations'], len(distinct), reported, wall))
